@@ -54,14 +54,24 @@ class Ctx:
             self.samples.append(obj)
 
     def violation(self, kind, detail, case=None):
-        """Record a refuting execution.  `kind` is a stable symptom label; detail is JSON-able."""
+        """Record a refuting execution.  `kind` is a stable symptom label; detail is JSON-able.
+
+        Witnesses of listed known findings are kept up to 5 per finding; everything else is kept up to 80 per
+        shard, so that a flood of known-finding witnesses can never crowd out an unlisted violation."""
         self.count("violations_raw")
         self.table("violation_kinds", kind)
-        if len(self.violations) < self.max_violations or \
-                sum(1 for v in self.violations if v["kind"] == kind) < 3:
-            self.violations.append({"kind": kind, "detail": detail,
-                                    "case": self.case if case is None else case,
-                                    "shard": self.shard})
+        v = {"kind": kind, "detail": json.loads(json.dumps(detail, default=str)),
+             "case": self.case if case is None else case, "shard": self.shard}
+        fid = known.classify(self.prop, v)
+        if fid is not None:
+            self.table("known_finding_witnesses", fid)
+            if sum(1 for x in self.violations if x.get("_fid") == fid) < 5:
+                v["_fid"] = fid
+                self.violations.append(v)
+        else:
+            self.table("unlisted_violation_kinds", kind)
+            if sum(1 for x in self.violations if "_fid" not in x) < 80:
+                self.violations.append(v)
 
     def dump(self):
         return {"counters": self.counters, "tables": self.tables, "distinct": sorted(self.distinct_set),
@@ -211,8 +221,9 @@ def main(argv=None):
     rc = 0
     lines = []
     for fid, vs in sorted(open_f.items()):
+        nwit = m["tables"].get("known_finding_witnesses", {}).get(fid, len(vs))
         lines.append(f"KNOWN-FINDING: property={prop} {known.describe(fid)} "
-                     f"[{len(vs)} witness(es) this run, e.g. {json.dumps(vs[0]['detail'], default=str)[:300]}]")
+                     f"[{nwit} witness(es) this run, e.g. {json.dumps(vs[0]['detail'], default=str)[:300]}]")
     replay_paths = []
     if unknown:
         rc = 1
@@ -245,7 +256,8 @@ def main(argv=None):
         "samples": m["samples"][:6] or ["<none>"],
         "oracle_evaluations": {k: v for k, v in sorted(m["counters"].items())},
         "tables": m["tables"],
-        "known_findings_hit": {fid: len(vs) for fid, vs in open_f.items()},
+        "known_findings_hit": {fid: m["tables"].get("known_finding_witnesses", {}).get(fid, len(vs))
+                               for fid, vs in open_f.items()},
         "unlisted_violation_kinds": sorted({v["kind"] for v in unknown}),
         "inconclusive_reasons": inconclusive,
         "workers": nshards,
